@@ -843,7 +843,32 @@ def execute(program, ctx, mode):
             L = live()
             used = {b for l in L for b in bases_of[l]}
             cands = [l for l in L if l not in used and kind[l] in ('decl', 'prov')]
-            if cands:
+            icands = [l for l in L if l not in used and kind[l] == 'I']
+            if not cands and icands and not (W.get('decls') or []):
+                # interface-only world: a leaf interface that has answered attribute queries (its memo is filled) is dropped
+                # and a collection runs; whether it really went away goes into the event log (the two implementations must
+                # agree: a specification the collector cannot reach into would stay alive, with its bases still listing it)
+                l = icands[op['n'] % len(icands)]
+                I = node[l]
+                for n_ in NAMES:
+                    I.get(n_)
+                import weakref as _wr
+                wr = _wr.ref(I)
+                label.pop(id(I), None)
+                node[l] = None
+                keep[l] = None
+                for tbl in (attrs, tags, rawtags, invs):
+                    tbl.pop(l, None)
+                spies[:] = [sp for sp in spies if sp.I is not I]
+                del I
+                gc.collect()
+                ctx.fault('drop')
+                ctx.fault('gc')
+                ctx.probe('interface-dropped-and-collected')
+                ctx.log(step, 'dropi', l, 'collected' if wr() is None else 'still-alive')
+                if 'C15' in props and wr() is not None and not spy_world:
+                    ctx.probe('dropped-interface-still-alive')
+            elif cands:
                 l = cands[op['n'] % len(cands)]
                 label.pop(id(node[l]), None)     # the address may be reused once the object is collected
                 node[l] = None
@@ -882,7 +907,7 @@ def execute(program, ctx, mode):
                 ctx.probe('interface-reloaded-with-dependents')
             ctx.log(step, 'reload', s, s2, deps)
         elif name == 'rebase_empty':
-            L = live()
+            L = live() or ['Interface']
             try:
                 _empty.__bases__ = (node[L[op['n'] % len(L)]],)
                 ctx.violation('C02', '_empty', 'C02|_empty-accepts-bases', {})
